@@ -26,6 +26,11 @@ def Bucket.run (b : Bucket) : List (Nat × Nat) → Option Bucket
   | [] => some b
   | (t, a) :: rest => match b.grant t a with | some b' => b'.run rest | none => none
 
+/-- the first time at or after `t` at which the contract lets `acquire(a)` return (what a limiter that wakes its waiter as
+    soon as there is room does): now if it fits, otherwise after the excess has leaked, rounded up to a tick -/
+def Bucket.earliest (b : Bucket) (t a : Nat) : Nat :=
+  max t (b.last + (b.level + a - b.cap + b.r - 1) / b.r)
+
 /-- what `download_file` charges for a chunk of `n` bytes: the original code -/
 def legacyCharge (cap n : Nat) : List Nat := [min n cap]
 
